@@ -13,8 +13,25 @@ ASSUMPTIONS = ['channel idents are left unchanged by _stringify (str idents) and
                'each writer visits frame_array.channels once, in order, and writes one field per channel whose condition holds (loop structure read, not proved)']
 
 
+def _requested():
+    import z3
+    from pyvc.engine import AbsSet
+    mem = z3.Function('requested', z3.IntSort(), z3.BoolSort())     # membership in the requested subset
+    empty = z3.Bool('requested_is_empty')
+    return AbsSet(lambda e: mem(to_int(e)), empty), mem, empty
+
+
 def register(reg):
-    pass
+    # the helper the two array-section writers call first: the X axis joins a non-empty subset, an empty subset ("all
+    # channels") stays empty, nothing else changes - verified on the real body; this is the set S2 of extra_obligations
+    S, mem, empty = _requested()
+    FA = KRec('FrameArray', x_axis=KRec('FrameChannel', ident=Int))
+    reg.add(Contract(WL, '_add_x_axis_to_channels_to_write', {'frame_array': FA, 'channel_name_sub_set': S},
+                     assume=['implies(len(channel_name_sub_set) == 0, forall_n(lambda t: not (t in channel_name_sub_set)))'],
+                     ensures=['forall_n(lambda t: (t in final_channel_name_sub_set) == ((t in channel_name_sub_set) or '
+                              '(len(channel_name_sub_set) != 0 and t == frame_array.x_axis.ident)))',
+                              '(len(final_channel_name_sub_set) == 0) == (len(channel_name_sub_set) == 0)'],
+                     canaries=['len(final_channel_name_sub_set) == 0'], crosscheck=False))
 
 
 def _channel_condition(fname):
